@@ -41,7 +41,7 @@ def result_file(s, out):
 def run(ctx):
     ctx.rule = ("TLC enumerates the degenerate scenarios (12 subcommand variants x every list of <= N record shapes from {length 0, 1, k-1, k, "
                 "w-1, w, all-N, N first, N last} incl. the empty file x threads {1,3}) with the outcome a clean run must have; B4: each "
-                "replayed scenario is materialised as a FASTA file and run through the real binary: no panic / abort / hang, exit 0 (whole-"
+                "replayed scenario is materialised as a FASTA, FASTQ or gzip-compressed FASTA file and run through the real binary: no panic / abort / hang, exit 0 (whole-"
                 "sequence CGR may refuse non-nucleotide records), one row per record; the rows themselves are judged by the specifications "
                 "that own them (oligo rows: FactsTrace Count - all-zero where nothing can be computed; minimiser listings: MinOutTrace - no "
                 "placeholder, runs exactly the specification's). non-trivial = scenarios executed")
@@ -55,7 +55,7 @@ def run(ctx):
         if m:
             scen.append(json.loads(json.loads('"' + m.group(1) + '"')))
     rng = random.Random(ctx.seed)
-    want = 20000 if ctx.thorough() else 3400
+    want = 30000 if ctx.thorough() else 5200
     # always keep the empty file and the single-shape scenarios; sample the rest
     small = [s for s in scen if len(s["shapes"]) <= 1]
     big = [s for s in scen if len(s["shapes"]) > 1]
@@ -70,10 +70,22 @@ def run(ctx):
         k = K[s["cmd"]]
         w = MINW if s["cmd"].startswith("min") and not s["cmd"].endswith("w0") else k + 3
         seqs = [seq_of(sh, k, w, r2) for sh in s["shapes"]]
-        inp = ctx.path("deg_%d.fa" % i)
-        with open(inp, "w") as f:
+        fa = ctx.path("deg_%d.fa" % i)          # the records as plain FASTA (what the decoders read)
+        with open(fa, "w") as f:
             for j, q in enumerate(seqs):
                 f.write(">r%d\n%s\n" % (j, q))
+        cont = s.get("cont", "fa")
+        inp = fa
+        if cont == "fq":
+            inp = ctx.path("deg_%d.fq" % i)
+            with open(inp, "w") as f:
+                for j, q in enumerate(seqs):
+                    f.write("@r%d\n%s\n+\n%s\n" % (j, q, "I" * len(q)))
+        elif cont == "gz":
+            import gzip
+            inp = ctx.path("deg_%d.fa.gz" % i)
+            with open(fa, "rb") as f, gzip.open(inp, "wb") as g:
+                g.write(f.read())
         open(inp + ".empty.fa", "w").close()
         out = ctx.path("deg_out_%d" % i)
         if os.path.isdir(out):
@@ -93,17 +105,17 @@ def run(ctx):
         extra = None
         if p.returncode == 0 and os.path.exists(rf):
             if s["cmd"].startswith("min"):
-                q = vlib.sh([vlib.KVH, "decode", "minout", inp, rf, s["cmd"].split("-")[1], str(0 if s["cmd"].endswith("w0") else MINW), "7"], timeout=60)
+                q = vlib.sh([vlib.KVH, "decode", "minout", fa, rf, s["cmd"].split("-")[1], str(0 if s["cmd"].endswith("w0") else MINW), "7"], timeout=60)
                 extra = ("min", q.stdout.decode())
             elif s["cmd"].startswith("oligo"):
-                q = vlib.sh([vlib.KVH, "decode", "oligo", inp, rf, "4", "0" if s["cmd"].startswith("oligo-batch") else "1", " ",
+                q = vlib.sh([vlib.KVH, "decode", "oligo", fa, rf, "4", "0" if s["cmd"].startswith("oligo-batch") else "1", " ",
                              "1" if s["cmd"].endswith("-H") else "0", "cli-degenerate"], timeout=60)
                 extra = ("oligo", q.stdout.decode())
             elif s["cmd"].startswith("ocgr"):
                 # frequencies of the k-mer CGR rows: all-zero where nothing can be computed, never NaN
-                q = vlib.sh([vlib.KVH, "decode", "ocgr", inp, rf, "3", "9", "0" if s["cmd"] == "ocgr-counts" else "1", "cli-degenerate"], timeout=60)
+                q = vlib.sh([vlib.KVH, "decode", "ocgr", fa, rf, "3", "9", "0" if s["cmd"] == "ocgr-counts" else "1", "cli-degenerate"], timeout=60)
                 extra = ("oligo", q.stdout.decode())
-        for pth in (inp, inp + ".empty.fa", out):
+        for pth in (fa, inp, inp + ".empty.fa", out):
             if os.path.isdir(pth):
                 shutil.rmtree(pth)
             elif os.path.exists(pth):
